@@ -308,6 +308,8 @@ def run(ctx: Ctx):
             lat, lon = g_.find_lat_long_along_traj(np.full(len(r[0]), 5.0))
             return (*r, np.asarray(lat), np.asarray(lon), np.asarray(g_.event_mask))
         plotinert.check(ctx, "RegionGeom.__call__", call, {"cfg": list(c), "events": 64}, spellings=("list", "name"))
+        import logmode   # … and so is the logging configuration of the calling program
+        logmode.check(ctx, "RegionGeom.__call__", lambda: call(None), {"cfg": list(c), "events": 64})
     # ---- what the caller does with the arrays it received must not reach the object: small batches in which every event is
     # kept (and larger ones), results converted in place by the caller (km -> m, rad -> deg), then the positions along the
     # trajectories asked again: they must be what they were
